@@ -1,6 +1,6 @@
 CONSTANTS StreamId = 1 MaxNotify = 1000000 HeaderSurvives = TRUE
 CONSTANT Queries <- QueriesDef
 SPECIFICATION TraceSpec
-INVARIANTS AnswersInOrder NoLoss NoGarbage NotifyCount
+INVARIANTS AnswersInOrder NoLoss NoGarbage NotifyCount OneVersion
 POSTCONDITION TraceAccepted
 CHECK_DEADLOCK FALSE
